@@ -8,6 +8,7 @@ probability, and counts which classes it actually used.
 from __future__ import annotations
 
 from .model import expr as X
+from .model import busmodel
 
 KNOBS = ["blank", "indent", "trailing", "linecomment", "eolcomment", "blockcomment", "opspace", "commaspace", "bracketspace",
          "assignspace", "case_mnemonic", "case_suffix", "case_index", "case_hex", "include"]
@@ -197,7 +198,7 @@ class Renderer:
             out.append([f".include '{st['f']}'", st])
         elif k == "map":
             s = st["spec"]
-            lo, hi, mask = (0x8000, 0xFFFF, 0x8000) if s["win"] == "hi32" else (0, 0xFFFF, 0x10000)
+            lo, hi, mask = busmodel.WINDOWS[s["win"]]
             line = (f".map identifier={s['id']} bank_range=0x{s['first']:02x}, 0x{s['last']:02x} "
                     f"addr_range=0x{lo:04x}, 0x{hi:04x} mask=0x{mask:x}")
             if s.get("ram"):
